@@ -130,7 +130,7 @@ class DnsRecordDnskey(ParsableBase, Serializable):
             return PublicKey.from_params(PublicKeyParamsEcdsa(
                 point_x=key_parser['x'], point_y=key_parser['y'], named_group=named_group,
             ))
-        except ValueError as e:  # a point with a zero coordinate cannot be encoded
+        except (ValueError, OverflowError) as e:  # a point with a zero coordinate (or a power of 256) cannot be encoded
             six.raise_from(InvalidValue((key_parser['x'], key_parser['y']), cls, 'key'), e)
 
     @classmethod
